@@ -490,4 +490,58 @@ theorem nextValue_hash (cfg : DCfg) (ls : LState) (k : KeyE) (f : LenForm) (item
       unfold pairVals
       rw [← List.map_append, List.take_append_drop]
 
+/-! ### a key item of any non-split type -/
+
+theorem rtype_lt_244 (o : ObjE) (hk : o.kind ≠ .other) : o.rtype.toNat < 244 := by
+  cases o <;> first
+    | exact absurd rfl hk
+    | (simp only [ObjE.rtype]; decide)
+
+/-- `Next` on a key item of a non-chunkable type: ONE entry, carrying the key, the
+    loader's DB, the absolute expiry, idle time, freq, and exactly the parser
+    object `pobjOf` of the value (buffer = serialization); the loader is ready
+    for the next item and the input is positioned behind the value. -/
+theorem next_plain (cfg : DCfg) (ls : LState) (k : KeyE) (rest : Bytes)
+    (hls : ls.total = 0 ∧ ls.read = 0) (hwf : k.wf) (hk : k.obj.kind ≠ .other) (hh : k.obj.rtype ≠ 4) :
+    ∃ e ls', next cfg ls (k.enc ++ rest) = some (some e, ls', rest) ∧
+      e.key = k.key.val ∧ e.db = (ls.db : Int) ∧ e.expireAt = k.exp.at ∧
+      e.idle = (match k.idle with | none => 0 | some (_, n) => n) ∧
+      e.freq = (match k.freq with | none => 0 | some n => n) ∧
+      e.type = k.obj.rtype ∧ e.obj = pobjOf k.key.val k.obj ∧
+      ls'.db = ls.db ∧ ls'.total = 0 ∧ ls'.read = 0 := by
+  have hwf' := hwf
+  obtain ⟨hkey, hobjwf, _, _, _⟩ := hwf
+  have hls0 : ls.total - ls.read = 0 := by omega
+  obtain ⟨fuel, hnext0⟩ := next_at_key cfg ls k rest hls0 hwf'
+  obtain ⟨hm1, hm2, hm3, _⟩ := metaOf_fields k
+  obtain ⟨n1, n2, n3, n4, n5, n6, n7, n8, n9, n10, n11⟩ := not_opcode k.obj.rtype (rtype_lt_244 k.obj hk)
+  -- readBuffer does not look at the loader's DB / last entry when nothing is pending
+  have hrb : readBuffer cfg ls k.obj.rtype (k.key.enc ++ (k.obj.ser ++ rest)) =
+      some (pobjOf k.key.val k.obj, { ls with total := 0, read := 0 }, rest) := by
+    have h0 := readBuffer_plain cfg k.key k.obj rest hkey hobjwf hk hh
+    have hot := otypeOf_rtype k.obj hk
+    have hnf := otOf_ne_function k.obj
+    unfold readBuffer at h0 ⊢
+    simp only [hot, hnf, if_false, hls.1, hls.2, Nat.sub_self, ne_eq, not_true_eq_false, hh] at h0 ⊢
+    cases hrs : readString (k.key.enc ++ (k.obj.ser ++ rest)) with
+    | none => simp [hrs] at h0
+    | some kr =>
+      simp only [hrs] at h0 ⊢
+      cases hsv : skipValue k.obj.rtype kr.2 with
+      | none => simp [hsv] at h0
+      | some r =>
+        simp only [hsv, Option.some.injEq, Prod.mk.injEq] at h0 ⊢
+        obtain ⟨a, _, c⟩ := h0
+        exact ⟨a, by simp, c⟩
+  refine ⟨{ metaOf k {} with db := (ls.db : Int), key := k.key.val, type := k.obj.rtype,
+                              obj := pobjOf k.key.val k.obj },
+          { ({ ls with total := 0, read := 0 } : LState) with
+              last := some { metaOf k {} with db := (ls.db : Int), key := k.key.val, type := k.obj.rtype,
+                                              obj := pobjOf k.key.val k.obj } }, ?_, rfl, rfl, hm1, hm2, hm3,
+          rfl, rfl, rfl, rfl, rfl⟩
+  rw [hnext0]
+  have hn : ¬ (ls.total - ls.read ≠ 0) := by omega
+  simp only [nextLoop, hn, if_false, n1, n2, n3, n4, n5, n6, n7, n8, n9, n10, n11, hrb]
+  rfl
+
 end GunYu.Rdb
